@@ -234,7 +234,8 @@ impl Exec {
         self.env.token_account(&nm, mint, owner)
     }
 
-    fn oracle_metas_for_bank(&mut self, b: &Bank, sub: Option<&Value>, bank_name: &str) -> Vec<AccountMeta> {
+    /// `sub`: {"bank": "oracle name"} replaces oracle slot 0; `slots`: {"bank": {"1": name, "2": name}} replaces any slot
+    fn oracle_metas_for_bank(&mut self, b: &Bank, sub: Option<&Value>, slots: Option<&Value>, bank_name: &str) -> Vec<AccountMeta> {
         let n = match b.config.oracle_setup {
             OracleSetup::Fixed | OracleSetup::None => 0,
             OracleSetup::PythPushOracle | OracleSetup::SwitchboardPull => 1,
@@ -251,6 +252,12 @@ impl Exec {
                     }
                     key = self.k(o);
                 }
+            }
+            if let Some(o) = slots.and_then(|m| m.get(bank_name)).and_then(|x| x.get(i.to_string())).and_then(|x| x.as_str()) {
+                if o == "omit" {
+                    continue;
+                }
+                key = self.k(o);
             }
             v.push(AccountMeta::new_readonly(key, false));
         }
@@ -286,7 +293,7 @@ impl Exec {
             let bn = self.env.names.name(&k);
             out.push(AccountMeta::new_readonly(k, false));
             if let Ok(b) = self.bank(&bn) {
-                out.extend(self.oracle_metas_for_bank(&b, sub.as_ref(), &bn));
+                out.extend(self.oracle_metas_for_bank(&b, sub.as_ref(), a.get("oracle_sub_slots"), &bn));
             }
         }
         Ok(out)
@@ -457,8 +464,8 @@ impl Exec {
                 .to_account_metas(None);
                 m.extend(self.mint_meta(&lbank));
                 let sub = a.get("oracle_sub").cloned();
-                m.extend(self.oracle_metas_for_bank(&abank, sub.as_ref(), ab));
-                m.extend(self.oracle_metas_for_bank(&lbank, sub.as_ref(), lb));
+                m.extend(self.oracle_metas_for_bank(&abank, sub.as_ref(), a.get("oracle_sub_slots"), ab));
+                m.extend(self.oracle_metas_for_bank(&lbank, sub.as_ref(), a.get("oracle_sub_slots"), lb));
                 let r1 = self.risk_metas(liqor, &[abk, lbk], &[], ctx, a)?;
                 let r2 = self.risk_metas(liqee, &[], &[], ctx, a)?;
                 let (n1, n2) = (r1.len() as u8, r2.len() as u8);
@@ -815,7 +822,7 @@ impl Exec {
                 let b = self.bank(bank)?;
                 let mut m = ac::LendingPoolPulseBankPriceCache { group: b.group, bank: self.k(bank) }.to_account_metas(None);
                 let sub = a.get("oracle_sub").cloned();
-                m.extend(self.oracle_metas_for_bank(&b, sub.as_ref(), bank));
+                m.extend(self.oracle_metas_for_bank(&b, sub.as_ref(), a.get("oracle_sub_slots"), bank));
                 (m, ix::LendingPoolPulseBankPriceCache {}.data())
             }
             // ------------------------------------------------------------------ emissions
@@ -1057,6 +1064,133 @@ impl Exec {
                 }
                 .data();
                 (ac::MarginfiGroupConfigure { marginfi_group: self.k(group), admin: signer }.to_account_metas(None), data)
+            }
+            "init_staked_settings" | "edit_staked_settings" => {
+                let group = sreq(a, "group")?;
+                let g = self.group(group)?;
+                let admin = self.admin_signer(a, g.admin);
+                let gk = self.k(group);
+                let sk = match s(a, "settings") {
+                    Some(n) => self.k(n),
+                    None => Pubkey::find_program_address(&[tc::STAKED_SETTINGS_SEED.as_bytes(), gk.as_ref()], &marginfi::ID).0,
+                };
+                self.env.names.reg(&format!("{}.staked", group), Pubkey::find_program_address(&[tc::STAKED_SETTINGS_SEED.as_bytes(), gk.as_ref()], &marginfi::ID).0);
+                signers.push(admin);
+                let tier = |v: u64| if v == 1 { RiskTier::Isolated } else { RiskTier::Collateral };
+                if op == "init_staked_settings" {
+                    let payer = self.env.wallet("payer");
+                    signers.push(payer);
+                    let settings = marginfi::instructions::marginfi_group::StakedSettingsConfig {
+                        oracle: self.k(s(a, "oracle").unwrap_or("none")),
+                        asset_weight_init: fxo(a, "aw_init").unwrap_or(I80F48::from_num(0.8).into()),
+                        asset_weight_maint: fxo(a, "aw_maint").unwrap_or(I80F48::from_num(0.9).into()),
+                        deposit_limit: u64o(a, "deposit_limit").unwrap_or(u64::MAX / 2),
+                        total_asset_value_init_limit: u64o(a, "init_limit").unwrap_or(0),
+                        oracle_max_age: u64o(a, "max_age").unwrap_or(60) as u16,
+                        risk_tier: tier(u64o(a, "risk_tier").unwrap_or(0)),
+                    };
+                    (
+                        ac::InitStakedSettings { marginfi_group: gk, admin, fee_payer: payer, staked_settings: sk, system_program: system_program::ID }
+                            .to_account_metas(None),
+                        ix::InitStakedSettings { settings }.data(),
+                    )
+                } else {
+                    let settings = marginfi::instructions::marginfi_group::StakedSettingsEditConfig {
+                        oracle: s(a, "oracle").map(|n| self.k(n)),
+                        asset_weight_init: fxo(a, "aw_init"),
+                        asset_weight_maint: fxo(a, "aw_maint"),
+                        deposit_limit: u64o(a, "deposit_limit"),
+                        total_asset_value_init_limit: u64o(a, "init_limit"),
+                        oracle_max_age: u64o(a, "max_age").map(|x| x as u16),
+                        risk_tier: u64o(a, "risk_tier").map(tier),
+                    };
+                    (
+                        ac::EditStakedSettings { marginfi_group: gk, admin, staked_settings: sk }.to_account_metas(None),
+                        ix::EditStakedSettings { settings }.data(),
+                    )
+                }
+            }
+            "propagate_staked" => {
+                let bank = sreq(a, "bank")?;
+                let b = self.bank(bank)?;
+                let gk = match s(a, "group") {
+                    Some(g) => self.k(g),
+                    None => b.group,
+                };
+                let sk = match s(a, "settings") {
+                    Some(n) => self.k(n),
+                    None => Pubkey::find_program_address(&[tc::STAKED_SETTINGS_SEED.as_bytes(), gk.as_ref()], &marginfi::ID).0,
+                };
+                let mut m = ac::PropagateStakedSettings { marginfi_group: gk, staked_settings: sk, bank: self.k(bank) }.to_account_metas(None);
+                if let Some(o) = s(a, "oracle") {
+                    m.push(AccountMeta::new_readonly(self.k(o), false));
+                }
+                (m, ix::PropagateStakedSettings {}.data())
+            }
+            "add_bank_staked" => {
+                let group = sreq(a, "group")?;
+                let bank = sreq(a, "bank")?;
+                let pool_name = sreq(a, "pool")?.to_string();
+                let p = self.env.pools.get(&pool_name).ok_or("no pool")?.clone();
+                let payer = self.env.wallet(s(a, "signer").unwrap_or("payer"));
+                signers.push(payer);
+                let gk = self.k(group);
+                let sd = u64o(a, "seed").unwrap_or(0);
+                // (substitutions: a different mint / stake pool / sol pool than the pool's own)
+                let mint = s(a, "mint").map(|n| self.k(n)).unwrap_or(p.mint);
+                let stake_pool = s(a, "stake_pool").map(|n| self.k(n)).unwrap_or(p.pool);
+                let sol_pool = s(a, "sol_pool").map(|n| self.k(n)).unwrap_or(p.sol_pool);
+                let bk = Pubkey::find_program_address(&[gk.as_ref(), mint.as_ref(), &sd.to_le_bytes()], &marginfi::ID).0;
+                self.env.names.reg(bank, bk);
+                for (nm, seed_s) in [
+                    ("liq", tc::LIQUIDITY_VAULT_SEED),
+                    ("ins", tc::INSURANCE_VAULT_SEED),
+                    ("fee", tc::FEE_VAULT_SEED),
+                    ("liq_auth", tc::LIQUIDITY_VAULT_AUTHORITY_SEED),
+                    ("ins_auth", tc::INSURANCE_VAULT_AUTHORITY_SEED),
+                    ("fee_auth", tc::FEE_VAULT_AUTHORITY_SEED),
+                ] {
+                    self.env.names.reg(&format!("{}.{}", bank, nm), pda(seed_s, &bk));
+                }
+                let sk = match s(a, "settings") {
+                    Some(n) => self.k(n),
+                    None => Pubkey::find_program_address(&[tc::STAKED_SETTINGS_SEED.as_bytes(), gk.as_ref()], &marginfi::ID).0,
+                };
+                let mut m = ac::LendingPoolAddBankPermissionless {
+                    marginfi_group: gk,
+                    staked_settings: sk,
+                    fee_payer: payer,
+                    bank_mint: mint,
+                    sol_pool,
+                    stake_pool,
+                    bank: bk,
+                    liquidity_vault_authority: pda(tc::LIQUIDITY_VAULT_AUTHORITY_SEED, &bk),
+                    liquidity_vault: pda(tc::LIQUIDITY_VAULT_SEED, &bk),
+                    insurance_vault_authority: pda(tc::INSURANCE_VAULT_AUTHORITY_SEED, &bk),
+                    insurance_vault: pda(tc::INSURANCE_VAULT_SEED, &bk),
+                    fee_vault_authority: pda(tc::FEE_VAULT_AUTHORITY_SEED, &bk),
+                    fee_vault: pda(tc::FEE_VAULT_SEED, &bk),
+                    token_program: spl_token::ID,
+                    system_program: system_program::ID,
+                }
+                .to_account_metas(None);
+                // remaining: the settings' oracle, the LST mint, the pool's stake account (or explicit names)
+                let rem: Vec<Pubkey> = match a.get("rem").and_then(|x| x.as_array()) {
+                    Some(r) => r.iter().filter_map(|x| x.as_str()).map(|n| self.k(n)).collect(),
+                    None => {
+                        let okey = self
+                            .env
+                            .world
+                            .get(&sk)
+                            .and_then(|acc| if acc.data.len() >= 8 + 96 { Some(Pubkey::new_from_array(acc.data[8 + 64..8 + 96].try_into().unwrap())) } else { None })
+                            .unwrap_or_default();
+                        vec![okey, mint, sol_pool]
+                    }
+                };
+                for k in rem {
+                    m.push(AccountMeta::new_readonly(k, false));
+                }
+                (m, ix::LendingPoolAddBankPermissionless { bank_seed: sd }.data())
             }
             "add_bank" => {
                 let group = sreq(a, "group")?;
@@ -1397,6 +1531,18 @@ impl Exec {
                 if let Some(t) = a.get("ts").and_then(parse_i128) {
                     self.env.world.clock.unix_timestamp = t as i64;
                 }
+            }
+            "add_stake_pool" => {
+                let pool = s(a, "pool").unwrap_or("SP1").to_string();
+                let mint = s(a, "mint").unwrap_or("LST1").to_string();
+                let stake = u64o(a, "stake").unwrap_or(1_000_000_000);
+                self.env.add_stake_pool(&pool, &mint, stake);
+            }
+            "set_stake" => {
+                let pool = s(a, "pool").unwrap_or("SP1").to_string();
+                let stake = u64o(a, "stake").unwrap_or(0);
+                let state = s(a, "state").unwrap_or("stake").to_string();
+                self.env.set_stake(&pool, stake, &state);
             }
             "add_mint" => {
                 let name = s(a, "mint").unwrap_or("M1").to_string();
